@@ -78,6 +78,7 @@ class Ctx:
         self.solver_time = 0.0
         self.keep_smt = keep_smt
         self.covered = set()  # labels reached (vacuity guard)
+        self.executed = set()  # qualified names of the real functions whose bodies were executed on this path
         self.mod_state = {}  # per-path module globals
         self.notes = []
 
@@ -278,6 +279,7 @@ def explore(harness, world, unit_name, max_paths=4000, keep_smt=False, wall_budg
     results = []
     npaths = 0
     covered = set()
+    executed = set()
     solver_time = 0.0
     notes = []
     t0 = time.time()
@@ -286,7 +288,7 @@ def explore(harness, world, unit_name, max_paths=4000, keep_smt=False, wall_budg
         npaths += 1
         if npaths > max_paths or (wall_budget and time.time() - t0 > wall_budget):
             why = "path budget" if npaths > max_paths else "wall budget"
-            return results, {"paths": npaths, "covered": sorted(covered), "solver_time_s": solver_time, "notes": notes,
+            return results, {"paths": npaths, "covered": sorted(covered), "solver_time_s": solver_time, "notes": notes, "executed": sorted(executed),
                              "incomplete": f"{why} exceeded after {npaths} paths in {unit_name}"}
         ctx = Ctx(prefix, world, unit_name, keep_smt=keep_smt)
         try:
@@ -303,7 +305,8 @@ def explore(harness, world, unit_name, max_paths=4000, keep_smt=False, wall_budg
                         ob.note = (ob.note or "") + " vacuous: contradictory path condition"
         results.extend(ctx.results)
         covered |= ctx.covered
+        executed |= ctx.executed
         solver_time += ctx.solver_time
         notes.extend(ctx.notes)
         work.extend(ctx.pending)
-    return results, {"paths": npaths, "covered": sorted(covered), "solver_time_s": solver_time, "notes": notes}
+    return results, {"paths": npaths, "covered": sorted(covered), "solver_time_s": solver_time, "notes": notes, "executed": sorted(executed)}
